@@ -219,7 +219,7 @@ class C13(core.Check):
         'amb:key-vs-relative-address', 'amb:decorated-register-vs-numeric', 'amb:implied-operand-entry-vs-shorter-variant',
         'amb:out-of-range-literal-with-later-accepting-candidate', 'primer:earlier-statement-took-a-later-variant', 'amb:listed-combination-named-like-the-disallowed-pair', 'amb:index-key-vs-index-expression', 'amb:register-that-reads-as-a-number',
         'amb:register-vs-numeric-enumeration', 'amb:register-vs-numeric-enumeration-with-argument-table-only',
-        'amb:key-that-stands-for-0-vs-label', 'operator-inside-bracketed-or-indexed-form', 'reject:empty-operand-beside-a-comma']}
+        'amb:key-that-stands-for-0-vs-label', 'operator-inside-bracketed-or-indexed-form', 'reject:empty-operand-beside-a-comma', 'definition-shared-by-anchor-and-alias']}
 
     def gen_isa(self, rng, force_empty=False, force_dp=False, force_ne=False, force_idx=False):
         self._dp_pair = None
@@ -584,12 +584,21 @@ class C13(core.Check):
                 if len(operands) not in counts:
                     tags.add('reject:no-variant-takes-count')
             mn = 'amb'
+            shared_def = False
+            if any(((v_.get('operands') or {}).get('operand_sets') or {}).get('disallowed_pairs') for v_ in encode.variants_of(isa, 'amb')) \
+                    and (i % 3 == 1 or rng.random() < 0.2):
+                # a second mnemonic defined by the very same block (an anchor and an alias in the YAML file): what the first
+                # one's construction does to the block must not change what the second one means
+                isa['instructions'] = {'amb': isa['instructions']['amb'], 'amc': isa['instructions']['amb'], 'nop': isa['instructions']['nop']}
+                mn = 'amc'
+                shared_def = True
+                tags.add('definition-shared-by-anchor-and-alias')
             r = rng.random()
             if r < 0.15:
-                mn = 'AMB'
+                mn = mn.upper()
                 tags.add('mnemonic:upper')
             elif r < 0.3:
-                mn = rng.choice(['Amb', 'aMb', 'amB'])
+                mn = rng.choice([mn.capitalize(), mn[0] + mn[1].upper() + mn[2], mn[:2] + mn[2].upper()])
                 tags.add('mnemonic:mixed')
             text = mn + (' ' + ', '.join(o['text'] for o in operands) if operands else '')
             if kind == 'ACCEPT' and operands and '"type": "empty"' not in json.dumps(isa) and (i % 7 == 2 or rng.random() < 0.08):
@@ -632,7 +641,7 @@ class C13(core.Check):
                     tags.add('primer:earlier-statement-took-a-later-variant')
                     break
             src = ''.join(f'{k} = {v}\n' for k, v in LABELS.items()) + primer + f'.org {addr}\n{text}\n.byte $EE\n'
-            fn, itext = isamod.render_isa(isa, 'yaml' if 'numeric_enumeration' in json.dumps(isa) else 'json')
+            fn, itext = isamod.render_isa(isa, 'yaml' if ('numeric_enumeration' in json.dumps(isa) or shared_def) else 'json')
             tags.add('expect:' + kind)
             ntk = None
             if len(acc) >= 2:
